@@ -728,6 +728,26 @@ func (fc *FnCtx) modelCall(st *State, e *ast.CallExpr, fn *types.Func, full stri
 		fc.assume(st, b("(>= %s %s)", nv.S, cur.S))
 		fc.set(st, k, nv)
 		return []Term{{S: fmt.Sprintf("(- %s %s)", nv.S, args[0].S), Sort: SInt, T: fn.Type().(*types.Signature).Results().At(0).Type()}}, true
+	case "(time.Duration).Seconds", "(time.Duration).Minutes", "(time.Duration).Hours", "(time.Duration).Milliseconds":
+		// a float (or int) whose sign is the sign of the duration; magnitudes are not modelled
+		if strings.HasSuffix(full, "Milliseconds") {
+			r := Term{S: fmt.Sprintf("(tdiv %s 1000000)", recv.S), Sort: SInt, T: types.Typ[types.Int64]}
+			return []Term{r}, true
+		}
+		fnName := "dur2flt_" + strings.ToLower(full[strings.LastIndex(full, ".")+1:])
+		fc.declareFun(fnName, []string{SInt}, SFlt)
+		zero := fc.fltLit("0", types.Typ[types.Float64])
+		r := Term{S: fmt.Sprintf("(%s %s)", fnName, recv.S), Sort: SFlt, T: types.Typ[types.Float64]}
+		fc.declareFun("fgt", []string{SFlt, SFlt}, SBool)
+		fc.declareFun("fge", []string{SFlt, SFlt}, SBool)
+		fc.declareFun("flt", []string{SFlt, SFlt}, SBool)
+		fc.declareFun("fle", []string{SFlt, SFlt}, SBool)
+		fc.assumeGlobal(b("(= (fgt %s %s) (> %s 0))", r.S, zero.S, recv.S))
+		fc.assumeGlobal(b("(= (fge %s %s) (>= %s 0))", r.S, zero.S, recv.S))
+		fc.assumeGlobal(b("(= (flt %s %s) (< %s 0))", r.S, zero.S, recv.S))
+		fc.assumeGlobal(b("(= (fle %s %s) (<= %s 0))", r.S, zero.S, recv.S))
+		fc.assumptions["float: Duration.Seconds/Minutes/Hours() compared with 0 has the sign of the duration (float64 conversion is monotone)"] = true
+		return []Term{r}, true
 	case "time.Until":
 		k := heapKey{"X", "clock"}
 		cur := fc.get(st, k, SInt, nil)
